@@ -20,8 +20,8 @@ CASES = [
       "            Nref_saved = self.Nref\n            self.setDtRefinement(Nref)\n            try:\n                return self.propagate(rhoi, method=method, mdata=mdata)\n            finally:\n                self.setDtRefinement(Nref_saved)\n",
       "            self.setDtRefinement(Nref)\n"),
     m("propagation caches a flag on the propagator", "C15-E2", P,
-      "        (pr, rho1, rho2) = self._INIT_EXP(rhoi)\n        \n        HH = self._INIT_RWA()\n        \n        indx = 1\n        for ii in self.TimeAxis.data[1:self.Nt]:",
-      "        (pr, rho1, rho2) = self._INIT_EXP(rhoi)\n        \n        HH = self._INIT_RWA()\n        self.last_order = L\n        \n        indx = 1\n        for ii in self.TimeAxis.data[1:self.Nt]:"),
+      "        (pr, rho1, rho2) = self._INIT_EXP(rhoi)\n        \n        HH = self._INIT_RWA()\n        \n        if self.has_PDeph:\n            self._BOOT_DEPH()\n        \n        indx = 1\n        for ii in self.TimeAxis.data[1:self.Nt]:",
+      "        (pr, rho1, rho2) = self._INIT_EXP(rhoi)\n        \n        HH = self._INIT_RWA()\n        self.last_order = L\n        \n        if self.has_PDeph:\n            self._BOOT_DEPH()\n        \n        indx = 1\n        for ii in self.TimeAxis.data[1:self.Nt]:"),
     m("dephasing factors not rebuilt", "C15-E2", P,
       "        if self.has_PDeph:\n            \n            self._BOOT_DEPH()\n            \n            IR = 0.0", "        if self.has_PDeph:\n            \n            IR = 0.0"),
     m("propagator rescales the Hamiltonian in place", "C15-E3", P,
